@@ -1,5 +1,6 @@
 import ColaVerif.Lemmas.UnaryPow
 import ColaVerif.Lemmas.UnaryEig
+import ColaVerif.Lemmas.UnaryGood
 import ColaVerif.Lemmas.UnaryBranch
 import ColaVerif.Lemmas.KrylovCompose
 import ColaVerif.Lemmas.AnnotSound
@@ -708,3 +709,33 @@ theorem C09_pow_kron_complex (P : Params ℂ) (α : ℚ) (alg : Alg) {S T : Set 
 end C09
 
 #print axioms C09.C09_pow_kron_complex
+
+/-! ## the action of the PLANNED operator: `hg` of `C09_action` discharged for annotation-free plans -/
+
+namespace C09
+variable {𝕜 : Type} [Field 𝕜] [StarRing 𝕜] [DecidableEq 𝕜]
+
+/-- **the planned operator of an annotation-free plan is `Op.Good`** (`UnOp.annFree`: no `f(c) * I`, no
+`I_like`, no repeated product — the nodes that carry annotations of their own; Diagonal, dense base cases
+and `inv` results under BlockDiag / Kronecker / Transpose / Adjoint are covered) -/
+theorem C09_planned_good (P : Params 𝕜) (U : UnOp 𝕜) (h : U.annFree = true) : Op.Good (U.toOp P) :=
+  toOp_good P U h
+
+/-- **`apply_unary(f, A, alg) @ X` acts as `f(A)`**, for every annotation-free plan, with NO hypothesis on the
+planned operator (`C09_action` with `hg` proved) -/
+theorem C09_action_planned (P : Params 𝕜) (S : Set 𝕜) (f : 𝕜 → 𝕜) (alg : Alg) (A : Op 𝕜)
+    (h : (applyUnary f alg A).Sound P S f) (hfree : (applyUnary f alg A).annFree = true)
+    (b : Nat) (X : MatF 𝕜) :
+    ∃ Fm : Matrix (Fin A.rows) (Fin A.rows) 𝕜, IsMatFunOn S f (mat A) Fm ∧
+      MatF.toMatrix A.rows b (((applyUnary f alg A).toOp P).mm b X).f = Fm * MatF.toMatrix A.rows b X :=
+  C09_action (applyUnary_ok P S f alg A h) (toOp_good P _ hfree) b X
+
+/-- non-vacuity: the plan of `apply_unary(f, [[2,1],[1,2]], Eig())` is annotation-free (and `SoundE`:
+`C09_eig_witness`) -/
+example (f : ℝ → ℝ) : (applyUnary f .eig exA).annFree = true := by
+  simp [applyUnary, exA, applyGo, baseRule, UnOp.annFree]
+
+end C09
+
+#print axioms C09.C09_planned_good
+#print axioms C09.C09_action_planned
